@@ -10,11 +10,32 @@ is replaced in this process by a counting proxy (exits run in a forked child).  
 through an independent connection and compared with the model's committed state; then the operation is repeated.
 Model-independent oracle: tables ∈ {before, fault-free after}, integrity_check / foreign_key_check clean, prior rows
 intact, retry outcome = fault-free outcome.
+
+Crash environment (Model/Pager.lean, Props/C09/Pager.lean, driver Drv/Pager.lean; proxy in pgv/crashenv.py): "death commits
+nothing" is a theorem about SQLite's pager only when the rollback journal is a file and the whole call is ONE transaction
+(`death_atomic`, `power_atomic`); with a journal in memory / no journal / several transactions per call a death after SQLite has
+spilled dirty pages leaves a torn file (`volatile_journal_tears`, `split_transaction_tears`).  The harness therefore
+(1) reads the connection's journal_mode / synchronous / locking_mode / isolation_level / autocommit while each operation runs, counts
+connections and commits and follows `in_transaction` and SQLite's own statement trace, and hands the observed environment to the
+model (`Env.deathSafe`, `Env.powerSafe`): any deviation from a plain connection's defaults, or an environment for which the model
+predicts a torn file, is a broken correspondence AND switches that operation to the exhaustive search;
+(2) repeats the death faults (and one statement fault per position) with a SMALL PAGE CACHE (`PRAGMA cache_size` = 1 / 4 / 10 pages,
+issued by the proxy right after connect: an environment parameter, not part of the code's semantics), so that pages are spilled
+before the commit as they are with the default cache on megabyte uploads; thorough tier and suspicious operations also upload an
+isotherm larger than the default cache;
+(3) after every fault opens the file with an independent read-write connection first (what the next user finds: a hot journal is
+played back), then integrity_check / foreign_key_check and the table comparison; a malformed or torn file is reported with the
+operation, k, fault kind and cache size;
+(4) "everything stored remains retrievable": the library's own readers (isotherms_from_db, materials_from_db, adsorbates_from_db,
+isotherm_types_from_db) must not raise on the file after the fault and must return exactly what the tables hold (quick: every 6th run).
 """
 import copy
+import os
 import shutil
+import tempfile
 
-import c08
+import c08  # noqa: F401
+from pgv import crashenv as ce
 from pgv import storelib as sl
 from pgv.core import import_pygaps
 from pgv.models import make
@@ -25,7 +46,16 @@ KINDS = ["integrity", "interface", "operational", "exitBefore", "exitAfter"]
 def run(ck):
     pg = import_pygaps()
     import pygaps.parsing.sqlite as pgsql
-    files = sl.Files(pg)
+    # scratch databases on a memory file system when there is one: with a small page cache SQLite fsyncs its journal before every
+    # spill, and waiting for the platter is all that would buy (the faults exercised are process deaths: the OS keeps what was written)
+    scratch = os.environ.get("PGV_DB_SCRATCH") or next((d for d in ("/dev/shm",) if os.path.isdir(d) and os.access(d, os.W_OK | os.X_OK)), None)
+    saved_tmp = tempfile.tempdir
+    tempfile.tempdir = scratch or saved_tmp
+    try:
+        files = sl.Files(pg)
+    finally:
+        tempfile.tempdir = saved_tmp
+    ck.cov["scratch_dir"] = str(files.dir)
     try:
         _run(ck, pg, pgsql, files)
     finally:
@@ -64,6 +94,7 @@ def _run(ck, pg, pgsql, files):
             do("iso", iso_point("matA", "adsB", extra=True))
         if variant >= 2:
             do("mat", "matC", {"density": 1.1, "comment": "c"})
+            do("ads", "adsC", {"mass": 12.0, "formula": "C", "alias": ["adsC", "cc"]})      # unreferenced: can be deleted
             do("type", "adsorbate", "spare")
             do("type", "material", "spare")
         for kind, a in steps:
@@ -87,10 +118,12 @@ def _run(ck, pg, pgsql, files):
             else:
                 pgsql.isotherm_to_db(a[0], db_path=path, verbose=False)
                 lines.append("op - " + sl.iso_line(sl.iso_description(pg, a[0]), True, True))
-        return lines
+        # the isotherm OBJECTS that were stored: an equal-looking isotherm built later has another iso_id once its material / adsorbate
+        # resolve to the uploaded ones (with their properties) through MATERIAL_LIST / ADSORBATE_LIST
+        return lines, [a[0] for kind, a in steps if kind == "iso"]
 
     # ------------------------------------------------------------------ the write operations under test
-    def operations(variant):
+    def operations(variant, stored_isos):
         ops = []
 
         def A(name, props, overwrite=False, autoins=True):
@@ -140,27 +173,122 @@ def _run(ck, pg, pgsql, files):
                         lambda p, fn=fn, td2=td2: fn(dict(td2), db_path=p, overwrite=True, verbose=False)))
             spare = "spare" if (variant >= 2 and table != "isotherm") else ("modelisotherm" if table == "isotherm" else existing)
             ops.append((f"{table}_type_delete_db", f"typeDelete {table} {spare}", lambda p, dl=dl, spare=spare: dl(spare, db_path=p, verbose=False)))
+        # the entry points for isotherm property types (known finding S39 of C08: the schema has no such table; they fail on their only statement)
+        tdp = {"type": "tNew", "unit": "u", "description": "d"}
+        ops.append(("isotherm_property_type_to_db", "isoPropTypeOp to_db", lambda p: pgsql.isotherm_property_type_to_db(dict(tdp), db_path=p, verbose=False)))
+        ops.append(("isotherm_property_type_to_db(overwrite)", "isoPropTypeOp to_db_overwrite",
+                    lambda p: pgsql.isotherm_property_type_to_db(dict(tdp), db_path=p, overwrite=True, verbose=False)))
+        ops.append(("isotherm_property_type_delete_db", "isoPropTypeOp delete", lambda p: pgsql.isotherm_property_type_delete_db("tNew", db_path=p, verbose=False)))
         I(BaseIsotherm(material="matA", adsorbate="adsA", temperature=120.0, user="u2", n_runs=2.5), label="isotherm_to_db(base)")
         I(iso_point("matFresh", "adsFresh", extra=True), label="isotherm_to_db(point, auto-insert material+adsorbate)")
         I(pg.ModelIsotherm(model=make(pg, "Langmuir", {"K": 2.5, "n_m": 3.5}), material="matB", adsorbate="adsFresh2", temperature=90.0),
           label="isotherm_to_db(model, auto-insert adsorbate)")
         I(BaseIsotherm(material="matNope", adsorbate="adsA", temperature=120.0), am=False, label="isotherm_to_db(refused: unknown material)")
         if variant >= 1:
-            stored = iso_point("matA", "adsB", extra=True)
+            stored = stored_isos[1]             # the point isotherm uploaded by prepare()
             ops.append(("isotherm_delete_db", f"isoDelete {stored.iso_id}", lambda p, i=stored.iso_id: pgsql.isotherm_delete_db(i, db_path=p, verbose=False)))
+            ops.append(("isotherm_delete_db(isotherm object)", f"isoDelete {stored_isos[0].iso_id}", lambda p, i=stored_isos[0]: pgsql.isotherm_delete_db(i, db_path=p, verbose=False)))
             I(stored, label="isotherm_to_db(refused: duplicate)")
+            unknown = iso_point("matA", "adsB", extra=False)
+            ops.append(("isotherm_delete_db(refused: unknown id)", f"isoDelete {unknown.iso_id}", lambda p, i=unknown.iso_id: pgsql.isotherm_delete_db(i, db_path=p, verbose=False)))
+        if variant >= 2:
+            ops.append(("adsorbate_delete_db(with properties)", "adsDelete adsC", lambda p: pgsql.adsorbate_delete_db("adsC", db_path=p, verbose=False)))
         return ops
+
+    def big_isotherm(variant):
+        """A point isotherm whose two data columns are each larger than SQLite's default page cache (2000 KiB): ~3 MB of JSON text per column."""
+        npts = 150_000
+        pr = np.linspace(1e-3, 1.0, npts) + 1e-9 * (variant + 1)
+        df = pd.DataFrame({"pressure": pr, "loading": 10.0 * np.sqrt(pr)})
+        return pg.PointIsotherm(isotherm_data=df, pressure_key="pressure", loading_key="loading", material="matA", adsorbate="adsA",
+                                temperature=87.0 + variant, project="big")
 
     variants = [0, 1, 2] if thorough else [1, 2]
     lines, plan = [], []
     slot = 0
-    n_runs = 0
+    stats = {"runs": 0, "small_cache_runs": 0, "hot_journals_played_back": 0, "big_upload_runs": 0, "retrievals": 0, "failing_inputs_beyond_the_first_40_of_their_clause": 0}
+    default_env = ce.default_env(files.new())
+    env_seen = {}          # observed environment (as sent to Drv/Pager) -> first operation that ran in it
+    suspicious_ops = []
+
+    written = {}
+
+    def report(sig, detail):
+        """ck.fail_case, at most 40 replay files per clause (a broken wrapper fails at thousands of positions; all are counted)"""
+        c = sig.get("clause")
+        if written.get(c, 0) >= 40:
+            stats["failing_inputs_beyond_the_first_40_of_their_clause"] += 1
+            return
+        if ck.fail_case(sig, detail):
+            written[c] = written.get(c, 0) + 1
+
+    def retrievable(sig, path, tables):
+        """`*_from_db` (the readers of the library itself, plain sqlite3) return what the tables hold: every stored item, nothing else."""
+        stats["retrievals"] += 1
+        try:
+            isos = pgsql.isotherms_from_db(db_path=path, verbose=False)
+            mats = pgsql.materials_from_db(db_path=path, verbose=False)
+            adss = pgsql.adsorbates_from_db(db_path=path, verbose=False)
+            types = pgsql.isotherm_types_from_db(db_path=path, verbose=False)
+        except Exception as e:  # noqa
+            report({**sig, "clause": "what is stored in the file can no longer be retrieved"}, {"error": f"{type(e).__name__}: {e}"[:400]})
+            return
+        want = (sorted((r[2], r[3], float(r[4])) for r in tables["isos"]), list(tables["mats"]), list(tables["ads"]), [r[0] for r in tables["isoTypes"]])
+        got = (sorted((str(i.material), str(i.adsorbate), float(i.temperature)) for i in isos), [m.name for m in mats], [a.name for a in adss], [t["type"] for t in types])
+        if got != want:
+            report({**sig, "clause": "what is retrieved differs from what the file holds"}, {"retrieved": str(got)[:500], "tables": str(want)[:500]})
+
+    def after_fault(sig, path, out, out0, before, after, n, k, kind, thunk, mem0, cache=None):
+        """What is in the file now (read by an independent connection), the model-independent oracle, the retry.
+        -> the table dump (or None when the file cannot be read)"""
+        hot, integ_rw = ce.recover(path)
+        if hot:
+            stats["hot_journals_played_back"] += 1
+        got, integ, fk, err = ce.safe_read(path)
+        if got is None or integ_rw != [("ok",)] or integ != [("ok",)] or fk:
+            report({**sig, "clause": "integrity_check / foreign_key_check"},
+                         {"integrity (read-write connection)": str(integ_rw)[:400], "integrity": str(integ)[:400], "fk": str(fk)[:300], "read error": err,
+                          "journal file left behind": hot})
+        if got is None:
+            return None
+        is_before, is_after = got == before, got == after
+        if not (is_before or is_after):
+            report({**sig, "clause": "neither the complete effect nor none of it", "outcome": out},
+                         {"diff": _diff(before, after, got), "n_statements": n, "journal file left behind": hot})
+        elif out in ("parsing", "other") and not is_before:
+            report({**sig, "clause": "failed call changed the database", "outcome": out}, {"diff": _diff(before, after, got)})
+        elif out == "died" and is_after and not is_before and not (k == n and kind == "exitAfter") and out0 == "ok":
+            report({**sig, "clause": "death before the commit left the effect in the file"}, {"diff": _diff(before, after, got)})
+        # ------------------------------------------------ everything stored remains retrievable (the library's own readers; sampled in the quick tier)
+        if thorough or stats["runs"] % 6 == 0:
+            retrievable(sig, path, got)
+        # ------------------------------------------------ the same operation can be repeated
+        _reset_mem_keep(pg)
+        e2 = ce.with_fault(pgsql, ce.Plan(cache=cache), lambda: thunk(path))
+        out2 = sl.outcome_of(e2)
+        got2, integ2, fk2, err2 = ce.safe_read(path)
+        if is_before and (out2 != out0 or got2 != after):
+            report({**sig, "clause": "the operation cannot be repeated after the failure", "retry_outcome": out2, "fault_free_outcome": out0},
+                         {"error": repr(e2)[:300], "diff": _diff(before, after, got2) if got2 is not None else err2})
+        _reset_mem(pg, mem0)
+        return got
+
+    def one_fault(base, thunk, k, kind, cache):
+        path = files.new()
+        shutil.copy(base, path)
+        fplan = ce.Plan(k, kind, cache=cache)
+        if kind.startswith("exit"):
+            out = ce.in_child(pgsql, fplan, lambda: thunk(path))
+        else:
+            out = sl.outcome_of(ce.with_fault(pgsql, fplan, lambda: thunk(path)))
+        return path, out
+
     for variant in variants:
         base = files.new()
         del pg.ADSORBATE_LIST[:]
         del pg.MATERIAL_LIST[:]
         try:
-            prep = prepare(base, variant)
+            prep, stored_isos = prepare(base, variant)
         except Exception as e:  # noqa
             # the prior content consists of valid uploads into a fresh store of the tree under check; a refusal there is C08's subject
             # (reported there with the failing call) - here the fault enumeration on this content cannot be carried out
@@ -171,63 +299,106 @@ def _run(ck, pg, pgsql, files):
         plan += [None] * (2 + len(prep))
         before, _, _ = sl.read_tables(base)
         mem0 = (list(map(str, pg.ADSORBATE_LIST)), list(map(str, pg.MATERIAL_LIST)))
-        for (label, mline, thunk) in operations(variant):
-            # fault-free run: statement count n and the "after" state
+        ops = [(label, mline, thunk, True) for (label, mline, thunk) in operations(variant, stored_isos)]
+        big_at = len(ops)
+        for oi in range(len(ops) + 1):
+            if oi == big_at:
+                # an upload larger than SQLite's default page cache (spills with the DEFAULT environment): thorough tier, or as soon as
+                # some operation of this variant ran in an environment the theorems do not cover
+                if not (thorough or suspicious_ops):
+                    break
+                big = big_isotherm(variant)
+                ops.append(("isotherm_to_db(point, larger than the default page cache)", None,
+                            lambda p, iso=big: pgsql.isotherm_to_db(iso, db_path=p, verbose=False), False))
+            label, mline, thunk, modelled = ops[oi]
+            # fault-free run: statement count n, the "after" state, and the environment the code sets up
             p0 = files.new()
             shutil.copy(base, p0)
-            plan0 = sl.Plan()
-            e0 = sl.with_fault(pgsql, plan0, lambda: thunk(p0))
+            plan0 = ce.Plan(observe=True)
+            e0 = ce.with_fault(pgsql, plan0, lambda: thunk(p0))
             n = plan0.count
             after, _, _ = sl.read_tables(p0)
             out0 = sl.outcome_of(e0)
             _reset_mem(pg, mem0)
             slot += 1
-            lines += [f"copy {base_slot} {slot}", f"use {slot}", f"mem [{';'.join(mem0[0])}] [{';'.join(mem0[1])}]", "op - " + mline]
-            plan += [None, None, None, ("free", label, out0, n, sl.dump_tables(after), mline)]
+            if modelled:
+                lines += [f"copy {base_slot} {slot}", f"use {slot}", f"mem [{';'.join(mem0[0])}] [{';'.join(mem0[1])}]", "op - " + mline]
+                plan += [None, None, None, ("free", label, out0, n, sl.dump_tables(after), mline)]
             ck.count(("fault-free", label, variant), bucket="fault-free:" + out0)
+            # ------------------------------------------------ the environment of the transaction (Model/Pager.lean `Env`)
+            dev = ce.deviations(plan0, default_env)
+            dev_text = [t for _, t in dev]
+            one_txn = not plan0.shape and plan0.connects == 1 and plan0.commits <= 1
+            for env in plan0.envs or [dict(default_env, journal_mode="unobserved")]:
+                jm, sy = ce.env_token(env)
+                key = (jm, sy, one_txn and not ce.autocommit_on(env))
+                env_seen.setdefault(key, {"operation": label, "variant": variant, "deviations": dev_text, "trace": [t[1] for t in plan0.trace[:40]]})
+            suspicious = bool(dev)          # any deviation widens the search of this operation
+            if suspicious:
+                suspicious_ops.append(label)
+            # a deviation in a setting the model represents (journal_mode, synchronous; several transactions per call) is judged by the model below;
+            # anything else the model cannot speak about: the theorems were not stated for this environment
+            outside = [t for key, t in dev if key not in ce.MODELLED and key != "shape"]
+            if outside and sum(1 for b in ck.broken if b["step"].startswith("correspondence transaction environment (outside")) < 3:
+                ck.broken.append({"step": "correspondence transaction environment (outside Model/Pager.lean `Env`: death_atomic / power_atomic are stated for a plain connection's "
+                                          "locking and transaction control)",
+                                  "what": {"operation": label, "variant": variant, "deviations": outside, "environment read while the operation ran": plan0.envs,
+                                           "plain connection": default_env, "transaction control / PRAGMA statements as SQLite ran them": [t[1] for t in plan0.trace[:40]]}})
+            exhaustive_op = thorough or (suspicious and len(ck.violations) < 40)      # off-default environment: search everything until failing inputs are at hand
             ks = list(range(n + 1))
-            if not thorough and n > 14:
+            if not exhaustive_op and n > 14:
                 ks = sorted(set(list(range(6)) + rng.sample(range(6, n + 1), 6) + [n - 1, n]))
+            if not modelled:
+                ks = [k for k in ks if k >= n - 3]      # the megabytes are written by the last two statements
+            caches = list(ce.CACHE_PAGES)
             for k in ks:
                 for kind in KINDS:
                     if k == n and kind in ("integrity", "interface", "operational"):
                         continue           # the commit itself is only exposed to process death
-                    path = files.new()
-                    shutil.copy(base, path)
-                    fplan = sl.Plan(k, kind)
-                    if kind.startswith("exit"):
-                        out = sl.in_child(pgsql, fplan, lambda: thunk(path))
-                    else:
-                        e = sl.with_fault(pgsql, fplan, lambda: thunk(path))
-                        out = sl.outcome_of(e)
-                    got, integ, fk = sl.read_tables(path)
-                    n_runs += 1
+                    if not modelled and not kind.startswith("exit"):
+                        continue
+                    path, out = one_fault(base, thunk, k, kind, None)
+                    stats["runs"] += 1
+                    stats["big_upload_runs"] += 0 if modelled else 1
                     sig = {"operation": label, "k": k if k < n else "commit", "fault": kind, "variant": variant}
                     ck.count((label, k, kind, variant), nontrivial=True, bucket=f"fault:{kind}:{out}",
-                             sample={**sig, "n_statements": n, "outcome": out} if n_runs % 173 == 0 else None)
-                    # ------------------------------------------------ model-independent oracle
-                    is_before, is_after = got == before, got == after
-                    if integ != [("ok",)] or fk:
-                        ck.fail_case({**sig, "clause": "integrity_check / foreign_key_check"}, {"integrity": str(integ), "fk": str(fk)})
-                    if not (is_before or is_after):
-                        ck.fail_case({**sig, "clause": "neither the complete effect nor none of it", "outcome": out},
-                                     {"diff": _diff(before, after, got), "n_statements": n})
-                    elif out in ("parsing", "other") and not is_before:
-                        ck.fail_case({**sig, "clause": "failed call changed the database", "outcome": out}, {"diff": _diff(before, after, got)})
-                    elif out == "died" and is_after and not is_before and not (k == n and kind == "exitAfter") and out0 == "ok":
-                        ck.fail_case({**sig, "clause": "death before the commit left the effect in the file"}, {"diff": _diff(before, after, got)})
-                    # ------------------------------------------------ the same operation can be repeated
-                    _reset_mem_keep(pg)
-                    e2 = sl.with_fault(pgsql, sl.Plan(), lambda: thunk(path))
-                    out2 = sl.outcome_of(e2)
-                    got2, integ2, fk2 = sl.read_tables(path)
-                    if is_before and (out2 != out0 or got2 != after):
-                        ck.fail_case({**sig, "clause": "the operation cannot be repeated after the failure", "retry_outcome": out2, "fault_free_outcome": out0},
-                                     {"error": repr(e2)[:300], "diff": _diff(before, after, got2)})
-                    _reset_mem(pg, mem0)
+                             sample={**sig, "n_statements": n, "outcome": out} if stats["runs"] % 173 == 0 else None)
+                    got = after_fault(sig, path, out, out0, before, after, n, k, kind, thunk, mem0)
                     slot += 1
-                    lines += [f"copy {base_slot} {slot}", f"use {slot}", f"mem [{';'.join(mem0[0])}] [{';'.join(mem0[1])}]", f"op {k}:{kind} " + mline]
-                    plan += [None, None, None, ("fault", sig, out, n, sl.dump_tables(got), mline)]
+                    if modelled and got is not None:
+                        lines += [f"copy {base_slot} {slot}", f"use {slot}", f"mem [{';'.join(mem0[0])}] [{';'.join(mem0[1])}]", f"op {k}:{kind} " + mline]
+                        plan += [None, None, None, ("fault", sig, out, n, sl.dump_tables(got), mline)]
+                # ------------------------------------------------ the same position with a small page cache: SQLite spills dirty pages into the file
+                # before the commit (what it does by itself on large uploads); the two deaths, and one statement fault
+                if not modelled:
+                    continue
+                for cache in (caches if exhaustive_op else rng.sample(caches, ck.n(1, len(caches)))):
+                    kinds = ["exitBefore", "exitAfter"]
+                    if k < n:
+                        kinds += (KINDS[:3] if exhaustive_op else [rng.choice(KINDS[:3])])
+                    for kind in kinds:
+                        path, out = one_fault(base, thunk, k, kind, cache)
+                        stats["runs"] += 1
+                        stats["small_cache_runs"] += 1
+                        sig = {"operation": label, "k": k if k < n else "commit", "fault": kind, "variant": variant, "page_cache_pages": cache}
+                        ck.count((label, k, kind, variant, cache), nontrivial=True, bucket=f"fault(small cache):{kind}:{out}")
+                        after_fault(sig, path, out, out0, before, after, n, k, kind, thunk, mem0, cache=cache)
+    n_runs = stats["runs"]
+    # ------------------------------------------------------------------ the observed environments against the pager model
+    env_keys = sorted(env_seen, key=str)
+    try:
+        env_replies = ck.drive("Pager", [f"env {jm} {sy} {'T' if one else 'F'}" for (jm, sy, one) in env_keys])
+    except Exception as e:
+        env_replies = None
+        ck.broken.append({"step": "driver Pager", "what": str(e)[:600]})
+    verdicts = {}
+    for key, rep in zip(env_keys, env_replies or []):
+        verdicts[f"journal_mode={key[0]} synchronous={key[1]} one_transaction={key[2]}"] = rep
+        if rep != "death=atomic power=atomic":
+            ck.broken.append({"step": "correspondence transaction environment (Drv/Pager.lean: Env.deathSafe / Env.powerSafe of the environment the code sets up)",
+                              "what": {"environment": {"journal_mode": key[0], "synchronous": key[1], "one_transaction_per_call": key[2]}, "model": rep,
+                                       "first seen in": env_seen[key]}})
+    ck.cov["transaction_environments"] = {"plain_connection": default_env, "observed -> model verdict": verdicts, "operations_off_default": sorted(set(suspicious_ops))[:20]}
     # ------------------------------------------------------------------ correspondence with the Lean model (incl. statement counts)
     try:
         replies = ck.drive("Store", lines)
@@ -248,12 +419,18 @@ def _run(ck, pg, pgsql, files):
                     ck.broken.append({"step": "correspondence Model/Store.lean (fault run)" if tag == "fault" else "correspondence Model/Store.lean (statement count / fault-free run)",
                                       "what": {"case": sig, "op": mline[:200], "implementation": [out, n, dump[:300]], "model": [mo, mn, mdump[:300]]}})
     ck.cov["fault_runs"] = n_runs
+    ck.cov["fault_run_statistics"] = stats
     ck.cov["correspondence_disagreements"] = n_dis
     ck.cov["exhaustive"] = bool(thorough)
     ck.cov["rule"] = ("every public write operation (adsorbate/material upload new + overwrite, deletions, the 9 property/isotherm-type functions, isotherm upload of the three classes with and "
-                      "without auto-insert, refused uploads, isotherm deletion) x every statement index k (thorough: all 0..n; quick: first 6, last 2 and 6 sampled when n > 14) x 5 fault "
-                      "kinds (commit: the two exits) x prior-content variants; each followed by a fault-free retry; distinct = (operation, k, fault kind, variant)")
-    ck.assumptions += ["SQLite's rollback journal / fsync / torn pages and death inside sqlite3_step are SQLite's contract (exits are injected between statements and around commit only)"]
+                      "without auto-insert, refused uploads, isotherm deletion by id / by object / of an unknown id, the 3 isotherm-property-type entry points) x every statement index k (thorough, or the operation ran in an environment off a plain connection's defaults: "
+                      "all 0..n; quick: first 6, last 2 and 6 sampled when n > 14) x 5 fault kinds (commit: the two exits) x prior-content variants, with SQLite's default page cache; the same "
+                      "positions with a page cache of 1 / 4 / 10 pages (quick: one size drawn per position, the two deaths + one statement fault; thorough / off-default: all sizes, all kinds); "
+                      "thorough / off-default: deaths around the last statements of an upload larger than the default cache; each run followed by an independent read-write open "
+                      "(journal playback), integrity_check, foreign_key_check, table comparison, retrieval through *_from_db (quick: every 6th run) and a fault-free retry; distinct = (operation, k, fault kind, variant[, cache size])")
+    ck.assumptions += ["SQLite's rollback journal / fsync / torn pages and death inside sqlite3_step are SQLite's contract, modelled in Model/Pager.lean (journal-before-overwrite, playback of a "
+                       "hot journal by the next connection) and exercised with process death between statements and around commit under page caches of 1 / 4 / 10 pages and the default; "
+                       "power loss (unsynced writes lost) is covered by the model (`power_atomic`, needs synchronous >= NORMAL, which the harness reads from the live connection) but not exercised"]
 
 
 def _reset_mem(pg, mem0):
